@@ -9,12 +9,23 @@ static ALLOC: engine::worker::CountingAlloc = engine::worker::CountingAlloc;
 
 fn main() {
     let args: Vec<String> = std::env::args().collect();
-    if args.len() < 3 {
+    if args.len() < 3 && args.get(1).map(|s| s.as_str()) != Some("fuzz-targets") {
         eprintln!("usage: hv <ID> <quick|thorough> | hv <ID> --replay <file>");
         std::process::exit(2);
     }
     if args[1] == "worker" {
         std::process::exit(props::worker_main(&args[2..]));
+    }
+    if args[1] == "fuzz-targets" {
+        // the table of libFuzzer targets, for tools/fuzz_tier.py
+        let t: Vec<serde_json::Value> = props::fuzzers::TARGETS.iter().map(|t| serde_json::json!({"target": t.0, "property": t.1, "max_len": t.2, "input": t.3})).collect();
+        println!("{}", serde_json::to_string(&t).unwrap());
+        std::process::exit(0);
+    }
+    if args[1] == "fuzzcase" {
+        // hv fuzzcase <target> <file>: evaluate one saved fuzz input with the target's oracle, outside libFuzzer
+        engine::quiet_panics();
+        std::process::exit(fuzzcase(&args[2], args.get(3).map(|s| s.as_str()).unwrap_or("")));
     }
     let id = args[1].to_uppercase();
     let seed: u64 = std::env::var("VERIF_SEED")
@@ -24,13 +35,17 @@ fn main() {
     engine::quiet_panics();
     if args[2] == "--replay" {
         let path = args.get(3).cloned().unwrap_or_default();
-        let text = match std::fs::read_to_string(&path) {
-            Ok(t) => t,
+        let text = match std::fs::read(&path) {
+            Ok(t) => String::from_utf8_lossy(&t).into_owned(),
             Err(e) => {
                 eprintln!("cannot read replay file {}: {}", path, e);
                 std::process::exit(2);
             }
         };
+        // a saved libFuzzer input: /verif/replay/<ID>-fuzz-<target>-<crash|timeout|oom>-<sha>
+        if let Some(t) = props::fuzzers::TARGETS.iter().find(|t| path.contains(&format!("-fuzz-{}-", t.0))) {
+            std::process::exit(fuzzcase(t.0, &path));
+        }
         let v: serde_json::Value = match serde_json::from_str(&text) {
             Ok(v) => v,
             Err(e) => {
@@ -81,4 +96,43 @@ fn main() {
     }
     let code = ctx.finish();
     std::process::exit(if code == 0 && side_viol > 0 { 1 } else { code });
+}
+
+/// Evaluates one saved fuzz input. Exit code as for a replay: 0 held / known finding, 1 violation, 2 cannot tell.
+fn fuzzcase(target: &str, path: &str) -> i32 {
+    let data = match std::fs::read(path) {
+        Ok(d) => d,
+        Err(e) => {
+            eprintln!("cannot read {}: {}", path, e);
+            return 2;
+        }
+    };
+    let prop = match props::fuzzers::property_of(target) {
+        Some(p) => p,
+        None => {
+            eprintln!("unknown fuzz target {}", target);
+            return 2;
+        }
+    };
+    let known = engine::Known::load();
+    let r = props::fuzzers::fuzz_one(target, &data);
+    let mut code = 0;
+    for f in r.fails {
+        if f.sig == "harness" {
+            println!("INCONCLUSIVE: {}", f.detail);
+            return 2;
+        }
+        if let Some(t) = known.lookup(prop, &f.sig) {
+            println!("KNOWN-FINDING: property={} key={} {}", prop, f.sig, t);
+        } else {
+            println!("VIOLATION property={} replay={}", prop, path);
+            println!("  signature: {}", f.sig);
+            println!("  detail: {}", f.detail);
+            code = 1;
+        }
+    }
+    if code == 0 {
+        println!("{} fuzz input {} ({}): property held", prop, path, r.label);
+    }
+    code
 }
